@@ -2,12 +2,15 @@
 Queue-of-futures order (C05), part B2: step case of invariant A for the events of the threads.
 -/
 import Osmium.Lemmas.PipelineOrderA
+import Osmium.Lemmas.PipelineOrderA2
 
 namespace Osmium.Pipeline.Order
 
 open Osmium.Mon Osmium.Pipeline
 
 variable {α : Type} [DecidableEq α]
+
+set_option linter.unusedSimpArgs false
 
 set_option maxHeartbeats 1600000 in
 /-- step case of `invA`: events of the read / parser / pool / consumer threads (constructor index ≥ 2) -/
